@@ -331,9 +331,15 @@ def opden(eng, v):
     return SV(_opden(eng, v), "real")
 
 
+def _labelkey(vs):
+    return isinstance(vs, SV) and vs.t == "key"
+
+
 @spec
 def all01(eng, vs):
     """every operand takes a value in {0,1} at the ghost assignment"""
+    if _labelkey(vs):          # a tuple of labels of symbolic length: the ghost assignment is boolean on every label
+        return True
     parts = []
     for v in vs:
         d = _opden(eng, v)
@@ -343,6 +349,8 @@ def all01(eng, vs):
 
 @spec
 def andf(eng, vs):
+    if _labelkey(vs):
+        return SV(T.bmono(eng.facts.key(vs.e)), "real")
     r = z3.RealVal(1)
     for v in vs:
         r = r * _opden(eng, v)
@@ -372,6 +380,8 @@ def xorf(eng, vs):
 @spec
 def opsvalid(eng, vs):
     """dict/model operands are well formed boolean models or raw dicts; distinct objects"""
+    if _labelkey(vs):
+        return True
     parts = []
     for v in vs:
         if isinstance(v, PObj):
@@ -384,12 +394,7 @@ def isint(eng, x):
     if isinstance(x, int):
         return True
     e = zreal(x)
-    # skolem witness: if e is an integer then it is the image of some Int k (helps the solver: goals about
-    # e + 1, e + slack, -e become linear facts over k instead of floor reasoning)
-    eng.nfresh += 1
-    k = z3.Int("intwit!%d" % eng.nfresh)
-    eng.facts.add(z3.Implies(z3.IsInt(e), e == z3.ToReal(k)))
-    return SV(z3.IsInt(e), "bool")
+    return SV(eng.facts.intp(e), "bool")
 
 
 @spec
@@ -622,9 +627,22 @@ def asden(eng, d):
 
 
 @spec
+def int_at_origin(eng, d, spin=False):
+    """the model takes an integer value at the origin (all boolean variables 0 / all spins +1): for a boolean
+    model that is its constant term.  An integer-valued polynomial (the property's premise) has this in particular;
+    contracts proved for an arbitrary assignment carry it through arithmetic (second ghost = origin)."""
+    eng.facts.enable_origin()
+    r = FO.fold(eng, eng.store_of(d), "asden" if spin else "aden")
+    return isint(eng, SV(r, "real"))
+
+
+@spec
 def maplinked(eng, m):
     """the first ghost assignment is the second one composed with the mapping: x(i) == a(m[i]) on dom(m)"""
     ver = eng.store_of(m)
+    if getattr(eng.facts, "a_role", None) == "origin":
+        raise Unsupported("second ghost assignment used both for relabelling and as the origin")
+    eng.facts.a_role = "relabel"
     eng.facts.enable_ghost("a")
     return SV(T.linked(ver.dom, ver.val), "bool")
 
